@@ -17,6 +17,7 @@ import (
 	"time"
 
 	badger "github.com/dgraph-io/badger/v4"
+	"github.com/dgraph-io/badger/v4/options"
 
 	"verifharness/vh"
 )
@@ -56,6 +57,7 @@ type Case struct {
 	Pre   Layout `json:"pre"`
 	Posts []Post `json:"posts"`
 	NVK   int    `json:"nvk"`
+	Tiny  bool   `json:"tiny"` // BaseTableSize = 1: every key of a compaction output starts a new table
 }
 
 var keyNames = []string{"", "ka", "kb", "kc", "kd", "ke"}
@@ -254,6 +256,10 @@ func runCase(c Case, inmem bool) *mismatch {
 	o.MaxLevels = nlevels
 	o.MemTableSize = 64 << 10
 	o.NumVersionsToKeep = c.NVK
+	if c.Tiny {
+		o.BaseTableSize = 1
+		o.Compression = options.None
+	}
 	o.NumLevelZeroTables = 100
 	o.NumLevelZeroTablesStall = 200
 	db, err := badger.OpenManaged(o)
